@@ -12,6 +12,7 @@ import (
 
 	beacon "github.com/oasisprotocol/oasis-core/go/beacon/api"
 	"github.com/oasisprotocol/oasis-core/go/common/crypto/signature"
+	"github.com/oasisprotocol/oasis-core/go/common/entity"
 	"github.com/oasisprotocol/oasis-core/go/common/node"
 	"github.com/oasisprotocol/oasis-core/go/common/quantity"
 	"github.com/oasisprotocol/oasis-core/go/common/version"
@@ -26,8 +27,8 @@ import (
 
 func init() {
 	RegisterWorkload("C14", &Workload{
-		Kinds:  []string{"c14_regcompute", "c14_regcompute", "c14_regcompute", "c14_regruntime", "c14_unfreeze", "c14_mixroles", "c14_fundnode"},
-		Weight: 20,
+		Kinds:  []string{"c14_regcompute", "c14_regcompute", "c14_regcompute", "c14_regruntime", "c14_unfreeze", "c14_mixroles", "c14_fundnode", "c14_addnode", "c14_addnode"},
+		Weight: 24,
 		Tune:   c14Tune,
 	})
 	RegisterTxKind("c14_regcompute", c14RegCompute)
@@ -35,6 +36,7 @@ func init() {
 	RegisterTxKind("c14_regruntime", c14RegRuntime)
 	RegisterTxKind("c14_unfreeze", c14Unfreeze)
 	RegisterTxKind("c14_fundnode", c14FundNode)
+	RegisterTxKind("c14_addnode", c14AddNode)
 }
 
 func c14Tune(r *core.Rand, k *ChainKnobs) {
@@ -210,8 +212,11 @@ func c14Unfreeze(w *World, op TxOp, v TxView, _ signature.Signer, fee *transacti
 // pay for its registrations.
 func c14FundNode(w *World, op TxOp, v TxView, signer signature.Signer, fee *transaction.Fee) (*transaction.Transaction, signature.Signer, error) {
 	var all []*NodeKeys
-	for _, ek := range w.Entities {
+	for i, ek := range w.Entities {
 		all = append(all, ek.Nodes...)
+		if i >= w.K.Anchors {
+			all = append(all, c14ExtraNode(w, i, 0), c14ExtraNode(w, i, 1))
+		}
 	}
 	if len(all) == 0 {
 		return nil, nil, nil
@@ -220,4 +225,48 @@ func c14FundNode(w *World, op TxOp, v TxView, signer signature.Signer, fee *tran
 	nonce := uint64(int64(v.NextNonce(signer.Public())) + int64(op.NonceOff))
 	amt := quantity.NewFromUint64(uint64(200 + (op.Arg>>6)%800))
 	return staking.NewTransferTx(nonce, fee, &staking.Transfer{To: staking.NewAddress(nk.Identity.NodeSigner.Public()), Amount: *amt}), signer, nil
+}
+
+// c14ExtraNode derives the keys of the j-th additional node (not in genesis) of a non-anchor
+// entity: j=0 a validator, j=1 a validator that is also a compute worker.
+func c14ExtraNode(w *World, ent, j int) *NodeKeys {
+	roles := node.RoleValidator
+	if j == 1 {
+		roles |= node.RoleComputeWorker
+	}
+	return NewNodeKeys(w.K.Salt, ent, 200+j, roles)
+}
+
+// c14AddNode grows a non-anchor entity: first the entity re-registers with the additional node
+// in its node list, then (a later operation) the node itself registers.
+func c14AddNode(w *World, op TxOp, v TxView, _ signature.Signer, fee *transaction.Fee) (*transaction.Transaction, signature.Signer, error) {
+	n := len(w.Entities) - w.K.Anchors
+	if n <= 0 {
+		return nil, nil, nil
+	}
+	ent := w.K.Anchors + op.Arg%n
+	j := (op.Arg >> 4) % 2
+	nk := c14ExtraNode(w, ent, j)
+	id := nk.Identity.NodeSigner.Public()
+	e, err := registryState.NewImmutableState(v.Tree()).Entity(context.Background(), w.Entities[ent].Entity.ID)
+	if err != nil || e == nil {
+		return nil, nil, nil // the entity deregistered
+	}
+	if !e.HasNode(id) {
+		cp := *e
+		cp.Nodes = append(append([]signature.PublicKey{}, e.Nodes...), id)
+		signer := w.Entities[ent].Signer
+		se, err := entity.SignEntity(signer, registry.RegisterEntitySignatureContext, &cp)
+		if err != nil {
+			return nil, nil, err
+		}
+		nonce := uint64(int64(v.NextNonce(signer.Public())) + int64(op.NonceOff))
+		return registry.NewRegisterEntityTx(nonce, fee, se), signer, nil
+	}
+	var rts []*node.Runtime
+	if j == 1 {
+		rts = []*node.Runtime{{ID: w.RuntimeID, Version: version.Version{Major: 0, Minor: 1, Patch: 0}}}
+	}
+	exp := uint64(v.Epoch()) + 1 + uint64((op.Arg>>5)%4)
+	return c14NodeTx(w, nk, nk.Roles, exp, rts, op, v, fee)
 }
